@@ -131,6 +131,17 @@ func NewGenginePool(poolMinLen, poolMaxLen int64, em int, rulesStr string, apiOu
 	return p, nil
 }
 
+// a rule builder without rules, its data context holds the apis
+func newEmptyRuleBuilder(apiOuter map[string]interface{}) *builder.RuleBuilder {
+	dataContext := context.NewDataContext()
+	if apiOuter != nil {
+		for k, v := range apiOuter {
+			dataContext.Add(k, v)
+		}
+	}
+	return builder.NewRuleBuilder(dataContext)
+}
+
 //this could ensure make thread safety!
 func makeRuleBuilder(ruleStr string, apiOuter map[string]interface{}) (*builder.RuleBuilder, error) {
 	dataContext := context.NewDataContext()
@@ -355,6 +366,11 @@ func (gp *GenginePool) UpdatePooledRulesIncremental(ruleStr string) error {
 		return e
 	}
 
+	//after ClearPoolRules there is no master rule builder any more
+	if gp.ruleBuilder == nil {
+		gp.ruleBuilder = newEmptyRuleBuilder(gp.apis)
+	}
+
 	//update main
 	updateIncremental(kci, gp.ruleBuilder)
 
@@ -382,6 +398,11 @@ func (gp *GenginePool) ClearPoolRules() {
 func (gp *GenginePool) RemoveRules(ruleNames []string) error {
 	gp.updateLock.Lock()
 	defer gp.updateLock.Unlock()
+
+	//after ClearPoolRules there is no master rule builder any more
+	if gp.ruleBuilder == nil {
+		gp.ruleBuilder = newEmptyRuleBuilder(gp.apis)
+	}
 
 	e := gp.ruleBuilder.RemoveRules(ruleNames)
 	if e != nil {
